@@ -1029,3 +1029,41 @@ Proof.
   intros Hs Hl E. destruct (exec_valid size local ops Hs Hl) as [t' [E' [V _]]].
   rewrite E in E'. injection E' as <-. apply remove_effective. exact V.
 Qed.
+
+(** * Update is effective: when it reports the peer as added ([rt.PeerAdded] is called), the peer
+      with exactly that id and address is in the table *)
+
+Lemma in_table_set_bucket_head t i p b :
+  i < length (t_buckets t) -> in_table (set_bucket t i (p :: b)) p.
+Proof.
+  intro Hi. exists i, (p :: b). split; [|left; reflexivity].
+  unfold set_bucket; simpl. rewrite nth_error_upd, Nat.eqb_refl.
+  apply Nat.ltb_lt in Hi. rewrite Hi. reflexivity.
+Qed.
+
+Lemma update_added_in_table t id addr :
+  valid t -> snd (update t id addr) = UAdded -> in_table (fst (update t id addr)) (id, addr).
+Proof.
+  intros V. unfold update.
+  rewrite (bi_update_1 t id (v_nonempty t V)).
+  assert (Hi : home t id < length (t_buckets t)) by (apply home_lt, (v_nonempty t V)).
+  destruct (has id (get_bucket t (home t id))).
+  { destruct (move_to_front id (get_bucket t (home t id))); simpl; discriminate. }
+  destruct (kb_update_has_room _ _).
+  { simpl. intros _. apply in_table_set_bucket_head. exact Hi. }
+  destruct (kb_update_is_last _ _); [|simpl; discriminate].
+  destruct (next_bucket unfold_fuel t) as [t'|] eqn:NB; [|simpl; discriminate].
+  destruct (next_bucket_valid _ _ _ V NB) as [V' [_ [_ Hl]]].
+  pose proof (bi_update_2 t' id (v_nonempty t' V')) as B. rewrite Hl in B. rewrite B.
+  destruct (kb_update_still_full _ _); simpl; [discriminate|].
+  intros _. apply in_table_set_bucket_head. apply home_lt, (v_nonempty t' V').
+Qed.
+
+Lemma update_added_reachable size local ops id addr t :
+  (1 <= size)%Z -> length local = KB_ID_LEN ->
+  exec (new_table size local) ops = Some t ->
+  snd (update t id addr) = UAdded -> in_table (fst (update t id addr)) (id, addr).
+Proof.
+  intros Hs Hl E. destruct (exec_valid size local ops Hs Hl) as [t' [E' [V _]]].
+  rewrite E in E'. injection E' as <-. apply update_added_in_table. exact V.
+Qed.
